@@ -62,7 +62,7 @@ class _B:
     def point(self, key):
         dets = self.draw(self.st.lists(self.st.sampled_from(DETS), min_size=1, max_size=2, unique=True))
         nodes = []
-        idem = self.profile in ("replay", "replay_data")  # replay-idempotent points: own checkpoint, every motor set
+        idem = self.profile in ("replay", "replay_data", "keys")  # replay-idempotent points: own checkpoint, every motor set
         if self.resumable and (idem or self.chance(0.8)):
             nodes.append(M("checkpoint"))
         if idem:
